@@ -71,6 +71,23 @@ def make_recording():
     return recording(Np), recording(Cs)
 
 
+def use_instance(e, out, where):
+    """engines.use(<instance of a user-defined engine class>); a refusal or any other error is a failing input of the clause
+    'selecting by instance makes it the current engine' - not a reason for the harness to stop."""
+    from sym_metanet import engines
+    try:
+        r = engines.use(e)
+    except Exception as exn:
+        out["failures"].append({"key": "C13:instance-refused", "where": where,
+                                "what": f"use(<instance of {type(e).__name__}, a subclass of the shipped "
+                                        f"{type(e).__mro__[1].__module__} engine>) raised {exn!r:.160}"})
+        return False
+    if r is not e or engines.get_current_engine() is not e:
+        out["failures"].append({"key": "C13:use-instance", "where": where, "what": "use(instance) did not select that instance"})
+        return False
+    return True
+
+
 def run_C13(ctx):
     import casadi as cs
     import sym_metanet
@@ -128,7 +145,8 @@ def run_C13(ctx):
         for hi, h in enumerate(hist):
             insts = {}
             init = RecNp()
-            engines.use(init)
+            if not use_instance(init, out, h):
+                break
             ids = {id(init): ("init", 0)}
             fresh = [1]
 
@@ -184,8 +202,11 @@ def run_C13(ctx):
                             obs.append("stepped %s %d" % ids[id(used)])
                         if engines.get_current_engine() is not sel:
                             out["failures"].append({"key": "C13:step-writes-selection", "history": h, "what": "a step changed the selected engine"})
-                except EngineNotFoundError:
+                except EngineNotFoundError as exn:
                     obs.append("notfound")
+                    if op[0] == "inst":
+                        out["failures"].append({"key": "C13:instance-refused", "history": h,
+                                                "what": f"use(<instance of a {op[1]} engine subclass>) was refused: {exn!s:.120}"})
                     if engines.get_current_engine() is not before:
                         out["failures"].append({"key": "C13:refused-but-changed", "history": h, "what": f"{op}: refused but the selection changed"})
                 except Exception as exn:
@@ -209,7 +230,8 @@ def run_C13(ctx):
             for (mk_sel, mk_ex) in [(RecNp, RecCs), (RecCs, RecNp), (lambda: RecCs("MX"), RecNp), (RecNp, lambda: RecCs("MX")),
                                     (RecNp, RecNp), (RecCs, RecCs)]:
                 sel, ex = mk_sel(), mk_ex()
-                engines.use(sel)
+                if not use_instance(sel, out, net.to_json()):
+                    continue
                 R = impl.Real(net, pv)
                 opts = nets.opts_kwargs({k: rng.random() < 0.5 for k in nets.OPT_KW})
                 try:
@@ -283,7 +305,8 @@ def run_C13(ctx):
                                             "what": f"stepping the elements one by one with an explicit {type(ex3).__name__} raised {exn!r:.200}"})
                 # ---- queries without an engine use the SELECTED engine (selected after import, by instance)
                 sel2 = mk_ex()
-                engines.use(sel2)
+                if not use_instance(sel2, out, net.to_json()):
+                    continue
                 try:
                     with np.errstate(all="ignore"):
                         for el in R.origins.values():
